@@ -22,6 +22,7 @@ RULE = ("seeded generator over condition kind (PINN, Mean, DeepRitz, SingleModul
         "batch sizes x constrain_fn.  A case is non-trivial when at least one returned loss was compared with the float64 "
         "reference recomputed from the recorded points; distinct = (kind, model type, sampler shape, #data fns, #params, "
         "#components, derivative use, error/reduce)")
+RULE += '; integro conditions also differentiate the integral output with respect to a non-integrated coordinate (factor dint)'
 REQUIRED_REACH = ["Points.track_coord_gradients", "UserFunction.__call__", "Condition._setup_data_functions",
                   "SquaredError.forward", "SingleModuleCondition.forward", "PeriodicCondition.forward",
                   "IntegroPINNCondition.forward", "DeepONetSingleModuleCondition.forward", "DataCondition.forward",
